@@ -103,6 +103,9 @@ func TestVerifReplay(t *testing.T) {
 		t.Logf("VERIF-REPLAY: ASSERT-FAILED %%s", f)
 		t.Fail()
 	}
+	for _, l := range VerifReached {
+		t.Logf("VERIF-REPLAY: REACHED %%s", l)
+	}
 }
 '''
 
